@@ -102,7 +102,8 @@ var props = map[string]*PropSpec{
 	"C13": {
 		ID: "C13", Cone: []ConeItem{edAll, xAll, geAll, modmAll, curveAll}, Quick: twoLayouts, Thorough: allSix, Technique: techGovc,
 		Trusted: []string{"panics of library functions are modelled (index/slice/nil/explicit panic, subtle.ConstantTimeCopy length check)"},
-		Assumptions: []string{"non-nil options; accessors on well-formed keys", "VerifyBatch is not covered by this check (not under contract): the batch clauses of the property are not claimed"},
+		Assumptions: []string{"non-nil options; accessors on well-formed keys",
+			"VerifyBatch itself is verified (no panic for any inputs incl. nil/short/long entries and any batch length, writes nothing the caller can see, result vector fresh and of the right length) relative to a TRUSTED contract of multiScalarmultVartime (Bos-Coster heap; memory safety and magnitudes assumed, body not verified) and to the element invariants of the scratch heap, which are proved at every write in VerifyBatch"},
 	},
 	"C15": {
 		ID: "C15", Cone: []ConeItem{edAll, xAll, geAll, modmAll, curveAll}, Flow: []string{"globals"}, Quick: twoLayouts, Thorough: allSix,
@@ -113,7 +114,7 @@ var props = map[string]*PropSpec{
 		},
 		Assumptions: []string{
 			"a caller overwriting the exported x25519.Basepoint is outside the property (as stated in it)",
-			"VerifyBatch and the heap routines are not under contract: for them only the global-immutable scan applies (direct stores and address-passing to writers), not the write-frame obligations",
+			"VerifyBatch is under a safety/frame contract (write-frame obligations apply); the heap routines and multiScalarmultVartime are not verified (trusted contract: they write only the scratch heap they are handed); for them only the global-immutable scan applies",
 		},
 	},
 	"C14": {
